@@ -383,6 +383,8 @@ class FakeSnowflakeCursor:
             schema = table.db or self._conn.schema
             assert catalog and schema
             self._duck_conn.execute(info_schema.insert_table_comment_sql(catalog, schema, table.name, comment))
+            # the result of the statement is its status row, not the row count of the insert above
+            result_sql = result_sql or SQL_SUCCESS
 
         if (text_lengths := cast(list[tuple[str, int]], transformed.args.get("text_lengths"))) and (
             table := transformed.find(exp.Table)
